@@ -328,9 +328,11 @@ pub mod atomic {
     }
 
     int_atomic!(AtomicUsize, std::sync::atomic::AtomicUsize, usize);
+    int_atomic!(AtomicU64, std::sync::atomic::AtomicU64, u64);
     int_atomic!(AtomicIsize, std::sync::atomic::AtomicIsize, isize);
     int_atomic!(AtomicBool, std::sync::atomic::AtomicBool, bool);
     int_fetch!(AtomicUsize, usize);
+    int_fetch!(AtomicU64, u64);
     int_fetch!(AtomicIsize, isize);
 
     #[repr(transparent)]
